@@ -37,7 +37,8 @@ LEAN_EXES = ["model_c20"]
 REQUIRED_THEOREMS = [
     "TapkeeVerif.Cli.wiring_correct",
     "TapkeeVerif.Cli.every_param_option_wired",
-    "TapkeeVerif.Cli.defaults_match_spec",
+    "TapkeeVerif.Cli.defaults_follow_library_doc",
+    "TapkeeVerif.Cli.guards_exact",
     "TapkeeVerif.Cli.defaults_faithful",
     "TapkeeVerif.Cli.one_sample_per_line",
     "TapkeeVerif.Cli.data_path_is_spec",
@@ -52,10 +53,29 @@ REQUIRED_THEOREMS = [
     "TapkeeVerif.Cli.precompute_same_params",
 ]
 
-# vlib.HARNESS_FLAGS (ASan + UBSan + _GLIBCXX_ASSERTIONS + TAPKEE_VERIF …) with -O0 -g1 instead of -O1 -g: the two translation
-# units instantiate every method of the library; -O1 -g costs ~4 min cold, -O0 -g1 ~1 min, and the runs are tiny
-# (-g1 keeps the file:function frames that vlib.sanitizer_summary reads)
-BUILD_FLAGS = ["-O0" if f == "-O1" else "-g1" if f == "-g" else f for f in vlib.HARNESS_FLAGS]
+# Build flags.  The two translation units instantiate every method of the library (main.cpp twice: embedUsing and the
+# precomputed-callback chain); with vlib.HARNESS_FLAGS as they are (-O1 -g, ASan + full UBSan) each costs ~4 min.
+#   quick   : CLI   = HARNESS_FLAGS at -O0 -g1, UBSan without its three per-access checks (vptr, alignment, null; a null
+#                     dereference is still an ASan SEGV report)                                             ~50 s
+#             harness = HARNESS_FLAGS at -O0 -g1 without sanitizers (it only supplies reference values)      ~30 s
+#   thorough: both with the full sanitizer set at -O0 -g1                                                   ~70 s
+# (-g1 keeps the file:function frames that vlib.sanitizer_summary reads and costs nothing); the two compile in parallel.
+def _flags(full_sanitizers, sanitize=True):
+    out = []
+    for f in vlib.HARNESS_FLAGS:
+        if f == "-O1":
+            out.append("-O0")
+        elif f == "-g":
+            out.append("-g1")
+        elif f.startswith("-fsanitize=") or f.startswith("-fno-sanitize"):
+            if sanitize:
+                out.append(f)
+        else:
+            out.append(f)
+    if sanitize and not full_sanitizers:
+        out.append("-fno-sanitize=vptr,alignment,null")
+    return out
+
 
 GEN_PATH = os.path.join(vlib.LEAN_DIR, "TapkeeVerif", "Gen", "Cli.lean")
 PROPS_PATH = os.path.join(vlib.LEAN_DIR, "TapkeeVerif", "Props", "C20.lean")
@@ -95,9 +115,8 @@ def read_spec():
             spec["options"][m.group(1)] = (mm.group(1), mm.group(2))
     for m in re.finditer(r'^\s*\("([A-Z_]+)", "([^"]+)", "(\w+)"\),?\s*$', src, re.M):
         spec["names"].append((m.group(1), m.group(2), m.group(3)))
-    spec["defaults"] = {}
-    for m in re.finditer(r'^\s*\("([a-z-]+)", "([^"]*)"\),?\s*$', src, re.M):
-        spec["defaults"][m.group(1)] = m.group(2)
+    m = re.search(r"def specMirrorsLibrary : List String := \[([^\]]*)\]", src, re.S)
+    spec["mirrors"] = re.findall(r'"([^"]+)"', m.group(1)) if m else []
     m = re.search(r"def specUnreachable : List String := \[([^\]]*)\]", src)
     spec["unreachable"] = re.findall(r'"([^"]+)"', m.group(1)) if m else []
     if len(spec["options"]) < 20 or len(spec["names"]) < 30:
@@ -812,23 +831,30 @@ def judge_one(ctx, env, c, plan, lr, exp, act):
                          % (c.varied[0], "" if c.varied[1] in (0, 1, 2) else "=" + str(c.varied[1]), disp, got, wanted), case=D,
                          detail={"echo": act["echo"]})
                 return
-    # documented defaults: an option that is not given has the default the spec documents
+    # defaults: without the option the library receives (a) what `--help` of this very binary promises, (b) the literal
+    # written in with_default(…) (F-CLI-DEFAULT class), (c) for the options that mirror the library, the default the
+    # keyword's documentation states
     if act["echo"] and "method" in c.tags:
-        for optn, dflt in env.spec["defaults"].items():
+        for row in env.T["options"]:
+            optn = row["canonical"]
             role = env.spec["options"].get(optn)
-            if not role or role[0] != "param" or c.opt(optn):
+            if not role or role[0] != "param" or role[2] != "value" or c.opt(optn):
                 continue
             disp = env.kwdisplay.get(role[1])
             got = act["echo"].get(disp)
-            ctx.stat("oracle:default")
-            if role[2] == "named":
-                cident = dict((k, v) for m, k, v in env.spec["names"] if m == role[3]).get(dflt)
-                ok = got == env.constdisplay.get(cident)
-            else:
-                ok = got is not None and dec(got) is not None and close6(dec(got), Fraction(dflt))
-            if not ok:
-                ctx.fail("default:%s" % optn, "the documented default of --%s is %s, but without the option the library receives `%s = [%s]`"
-                         % (optn, dflt, disp, got), case=D, detail={"echo": act["echo"]})
+            refs = [("with_default(%s) in the source" % row["default"], row["default"])]
+            if optn in env.help_defaults:
+                refs.append(("`--help` (default: %s)" % env.help_defaults[optn], env.help_defaults[optn]))
+            if optn in env.spec["mirrors"] and env.T["doc_defaults"].get(role[1]):
+                refs.append(("the documentation of tapkee::%s (default %s)" % (role[1], env.T["doc_defaults"][role[1]]),
+                             env.T["doc_defaults"][role[1]]))
+            for what, ref in refs:
+                ctx.stat("oracle:default")
+                ok = got is not None and dec(got) is not None and dec(ref) is not None and close6(dec(got), dec(ref))
+                if not ok:
+                    ctx.fail("default:%s" % optn, "without --%s the library receives `%s = [%s]`, but %s" % (optn, disp, got, what),
+                             case=D, detail={"echo": act["echo"], "references": refs})
+                    break
     # projection files: written <=> both options given and the method returns a projection
     if "projection" in c.tags and act["rc"] == 0 and lr and lr.startswith("ok|"):
         has_proj = not lr.endswith("|-")
@@ -960,8 +986,9 @@ def number_contract(ctx, env):
 # ----------------------------------------------------------------------------------------------- entry points
 def build(ctx, env):
     with concurrent.futures.ThreadPoolExecutor(max_workers=2) as ex:
-        f1 = ex.submit(ctx.build_harness, os.path.join(vlib.REPO, "src", "cli", "main.cpp"), "c20_cli", (), BUILD_FLAGS)
-        f2 = ex.submit(ctx.build_harness, "c20_lib.cpp", None, (), BUILD_FLAGS)
+        full = ctx.tier != "quick"
+        f1 = ex.submit(ctx.build_harness, os.path.join(vlib.REPO, "src", "cli", "main.cpp"), "c20_cli", (), _flags(full))
+        f2 = ex.submit(ctx.build_harness, "c20_lib.cpp", None, (), _flags(full, sanitize=full))
         env.cli, log1 = f1.result()
         env.lib, log2 = f2.result()
     if not env.cli:
@@ -994,6 +1021,7 @@ def correspond(ctx, use_model=True):
     env.tmp = tempfile.mkdtemp(prefix="c20-", dir=vlib.BUILD_DIR)
     try:
         quick = ctx.tier == "quick"
+        env.help_defaults = help_defaults(env)
         if getattr(ctx, "replay", None) and isinstance(ctx.replay.get("case"), dict) and "argv" in ctx.replay["case"]:
             cases = [case_from_replay(env, ctx.replay["case"])]
         else:
@@ -1024,6 +1052,29 @@ def correspond(ctx, use_model=True):
         "--max-iters 1000 ManifoldSculpting did not finish within 20 minutes on 20 points under ASan (not a C20 matter)",
     ]
     ctx.extra["c20"] = {"cli_flags": "vlib.HARNESS_FLAGS", "defines": env.T["defines"]}
+
+
+def help_defaults(env):
+    """option -> the text after `(default: ` in the usage the binary prints"""
+    try:
+        r = subprocess.run([env.cli, "--help"], stdout=subprocess.PIPE, stderr=subprocess.PIPE, timeout=60,
+                           env=dict(os.environ, ASAN_OPTIONS="detect_leaks=0"))
+    except subprocess.TimeoutExpired:
+        return {}
+    out = {}
+    blocks = re.split(r"\n(?=\s+(?:-\w, )?--[\w-]+)", r.stdout.decode("latin-1"))
+    byname = {}
+    for o in env.T["options"]:
+        for n in o["names"]:
+            byname[n] = o["canonical"]
+    for b in blocks:
+        m = re.match(r"\s+(?:-\w, )?--([\w-]+)", b)
+        if not m or m.group(1) not in byname:
+            continue
+        d = re.search(r"\(default:\s*(.*?)\)\s*$", re.sub(r"\s*\n\s*", " ", b).strip())
+        if d:
+            out[byname[m.group(1)]] = d.group(1)
+    return out
 
 
 def corpus_cases(env):
